@@ -494,6 +494,23 @@ def climate(chk: Check, repo: Repo) -> None:
             if ast.dump(node) == sent_dump:
                 return ast.Name(id="__sent__", ctx=ast.Load())
             return super().visit(node)
+    # W then R of the shift's own codec is "the value as the datapoint can represent it" (whole steps for DPT 6.010,
+    # the identity up to 0.01 K for DPT 9.002; the two directions are inverse - rule (b)): rounding aside it is the value
+    # itself.  The broadcast target has to be built from that quantised shift - built from the raw offset the device
+    # reports a target the shift it sent does not produce (and its base temperature drifts).
+    class _Quant(ast.NodeTransformer):
+        def __init__(self) -> None:
+            self.n = 0
+        def visit_Call(self, node: ast.Call):
+            self.generic_visit(node)
+            if call_name(node) == "self._setpoint_shift.from_knx" and len(node.args) == 1 and isinstance(node.args[0], ast.Call) and call_name(node.args[0]) == "self._setpoint_shift.to_knx" and len(node.args[0].args) == 1:
+                self.n += 1
+                return node.args[0].args[0]
+            return node
+    qz = _Quant()
+    target_sym = qz.visit(target_sym)
+    raw_offset_used = ast.dump(sent) in ast.dump(target_sym)
+    chk.ob("broadcast-target-uses-the-shift-as-sent", ss.site(), qz.n == 1 and raw_offset_used, f"set_setpoint_shift broadcasts base + " + ("the offset passed through the shift datapoint's own encode/decode (what the shift telegram carries)" if qz.n == 1 else "the raw offset - with DPT 6.010 the shift telegram carries whole steps only: requested 22.3 at base 21.0, step 0.5 sends 3 steps (1.5 K) but a target of 22.3"), key="climate|quantised")
     target_in_sent = _Sub().visit(target_sym)
     a_n, b_n = affine(target_in_sent, "__sent__", {})
     comp_a, comp_b = a_n * a_d, a_n * b_d + b_n
